@@ -82,6 +82,16 @@ func verifyUnit(p *Prog, fi *FuncInfo) (res *UnitResult) {
 	for _, r := range fi.Requires {
 		st.assume(x.evalSpec(st, r.Expr))
 	}
+	if fi.ReplayText != nil {
+		x.replayText = x.evalSpec(st.clone(), fi.ReplayText)
+		if sl, ok := x.typeOf(fi.ReplayText).Underlying().(*types.Slice); ok {
+			x.replayHeap = x.heap(st, heapOfType(sl.Elem()), x.p.Reg.sortOf(sl.Elem()))
+			x.replayTerms = append(x.replayTerms, slLen(x.replayText))
+			for k := 0; k < replayTextMax; k++ {
+				x.replayTerms = append(x.replayTerms, Select(x.replayHeap, Add(slBase(x.replayText), IntLit(int64(k)))))
+			}
+		}
+	}
 	// vacuity: the precondition must be satisfiable
 	if len(fi.Requires) > 0 {
 		o := &Obligation{Name: fi.Name() + "#vacuity:requires", Kind: "vacuity", Func: fi.Name(), Goal: tFalse, ex: x, Expect: "sat", Vacuity: true, Pos: p.relPos(fi.Decl)}
